@@ -65,6 +65,20 @@ CLAIMS.update({
             "visited symbol of generated multi-file projects.",
             "Coq proof + differential correspondence"),
 })
+CLAIMS.update({
+    "C19": ("proof", "Coq theorems at the level of serde's data model: a struct field comes back, written or skipped, whenever its skip predicate "
+            "agrees with its missing-field default (C19_field); with the attribute tables regenerated from ast.rs every tree round-trips "
+            "(C19_roundtrip, nested induction with fuel = tree depth, no hypotheses). The real library round-trips every parsed and "
+            "validated tree of the run through RON and compares with ==; the model round-trips the same trees.",
+            "Coq proof over regenerated serde attribute tables + RON round trip of the implementation",
+            NOTE + " RON text layer and serde_derive's expansion are modelled, not verified."),
+    "C20": ("proof", "Coq theorems about the formatter as it is: names interpolated = the whole vector below three names, = the vector minus exactly "
+            "v[len-2] from three on (C20_known), never anything outside the vector (C20_nothing_extra), and the text is built from exactly "
+            "those names. The defect is a recorded known finding (the test suite pins the truncated wording). The check compares, for "
+            "every syntax error of the run, the names read back from the real message with the expectation vector recorded by the hook "
+            "and tolerates only that exact class.",
+            "Coq proof of the formatter's law in known-finding form + hook-based differential check"),
+})
 PENDING = {}
 
 def main():
